@@ -76,6 +76,19 @@ Definition spec_shared (k : akind) : bool := match k with Sprout | P2pkh | P2sh 
 Definition spec_ctor_net (k : akind) (n : net) : net :=
   match n with Regtest => if spec_shared k then Test else Regtest | _ => n end.
 
+(** conversion for an expected network: allowed when the networks are equal, and — only for the
+    kinds whose encodings testnet and regtest share — when a testnet address is expected on regtest *)
+Definition spec_convertible (a : addr) (expected : net) : bool :=
+  let n := addr_net a in
+  net_eq n expected ||
+  match a with
+  | ARaw _ k _ => spec_shared k && net_eq n Test && net_eq expected Regtest
+  | AUni _ _ => false
+  end.
+(** the address value the public constructors build from a converted (network, kind, data) *)
+Definition spec_rebuild (a : addr) : addr :=
+  match a with ARaw n k d => ARaw (spec_ctor_net k n) k d | AUni _ _ => a end.
+
 (** ** encodability of a container (its padded raw encoding has a valid F4Jumble length and the
     string fits the ZIP 316 Bech32m code length) — containers outside this class make
     [Encoding::encode] panic: known finding, see Corr.known_class *)
